@@ -933,6 +933,10 @@ func (k *c10k) matchSource(v ssa.Value, d int) *ssa.Call {
 		if n == "github.com/sahilm/fuzzy.Find" || n == "github.com/sahilm/fuzzy.FindNoSort" {
 			return x
 		}
+		// a helper that hands back (a leading part of) the matches it is given
+		if arg := ssau.PrefixHelperArg(x); arg != nil {
+			return k.matchSource(arg, d+1)
+		}
 	}
 	return nil
 }
